@@ -233,6 +233,7 @@ func init() {
 			ID: "C13",
 			Runs: []Run{
 				{Harness: "zzverif/zzh.ZZC13Spelling", Desc: "the same nine statements (field write, ++, write through pointer parameter, T{}, &T{}, new(T), var v T, method call, signature) in five files of package u that spell the type directly, through a renamed import, parenthesised, through a local alias (incl. alias of the pointer type) and through an alias declared in a third package; annotation kind on the type symbolic (@immutable/@constructor/@testonly/@packageonly/none): every file gets the same codes on the same lines", Bounds: map[string]interface{}{"spellings": 5, "annotation_kinds": 5, "statements": 9}},
+				{Harness: "zzverif/zzh.ZZC01Edge", Desc: "receiver spellings: a method declared with an alias-spelled receiver (constructor exemption, receiver overwrite) gets the verdicts of the directly spelled one; writes through a defined pointer type vs the explicit dereference; promoted vs explicit field paths", Bounds: map[string]interface{}{"skeleton": "c01SrcEdge"}},
 			},
 			Outside:     []string{"aliases of aliases; generic aliases; dot-imports; @implements through aliases (C05)"},
 			Assumptions: []string{"as C01-C04; a local alias declaration is itself a reference to the type (PKGO01's first use in that file)"},
